@@ -8,6 +8,9 @@ mod c07;
 mod c08;
 mod c11;
 mod c12;
+mod c18;
+mod c18v1;
+mod c18web3;
 mod c19;
 mod c20;
 mod util;
@@ -21,6 +24,7 @@ fn main() {
         "C08" => c08::run(&cli),
         "C11" => c11::run(&cli),
         "C12" => c12::run(&cli),
+        "C18" => c18::run(&cli),
         "C19" => c19::run(&cli),
         "C20" => c20::run(&cli),
         other => mc_core::machinery_error(&format!("mc-crypto does not serve property {other}")),
